@@ -107,16 +107,17 @@ theorem goAwayNowData_cs {X : String → Prop} {c : Conn} (hi : GoAwayInv c) (e 
 theorem goAwayNow_cs {X : String → Prop} {c : Conn} (hi : GoAwayInv c) (e : Reason) : CS X c (c.goAwayNow e) :=
   goAwayNowData_cs hi e []
 
-theorem cs_handleError {X : String → Prop} {c : Conn} (hi : GoAwayInv c) (e : PErr) :
+theorem cs_handleError {X : String → Prop} {c : Conn} (hi : GoAwayInv c) (e : PErr) (he : ∀ id r, e ≠ .reset id r .remote) :
     CS X c { c with streams := (c.streams.handleError e).1 } :=
-  .mk' ((ConnCtlP.keep15_handleError c e).step hi) rfl rfl rfl (.op1 (.handleError e) trivial rfl rfl rfl)
+  .mk' ((ConnCtlP.keep15_handleError c e).step hi) rfl rfl rfl (.op1 (.handleError e) he rfl rfl rfl)
 
 /-- `DynConnection::handle_go_away`: `Streams::handle_error`, then `go_away_now_data` -/
 theorem handleGoAway_cs {X : String → Prop} {c : Conn} (hi : GoAwayInv c) (r : Reason) (d : Bytes) (i : Initiator) :
     CS X c (c.handleGoAway r d i) := by
   rcases ConnCtlP.handleGoAway_cases c r d i with h | h <;> rw [h]
   · exact .same hi rfl rfl rfl rfl rfl
-  · have s1 : CS X c { c with streams := (c.streams.handleError (.goAway d r i)).1 } := cs_handleError hi _
+  · have s1 : CS X c { c with streams := (c.streams.handleError (.goAway d r i)).1 } :=
+      cs_handleError hi _ (fun _ _ h => by cases h)
     exact s1.trans (goAwayNowData_cs s1.ga r d)
 
 /-- **`DynConnection::handle_poll2_result`**: `handle_error`, `send_reset` (library resets), nothing else -/
@@ -143,7 +144,8 @@ theorem handlePoll2Result_cs {X : String → Prop} {c : Conn} (hi : GoAwayInv c)
         | error g => exact s1.trans (handleGoAway_cs s1.ga _ _ _)
     | io kind msg =>
       dsimp only
-      have s1 : CS X c { c with streams := (c.streams.handleError (.io kind msg)).1 } := cs_handleError hi _
+      have s1 : CS X c { c with streams := (c.streams.handleError (.io kind msg)).1 } :=
+        cs_handleError hi _ (fun _ _ h => by cases h)
       split
       · exact s1.trans (.same s1.ga rfl rfl rfl rfl rfl)
       · exact s1
